@@ -89,6 +89,22 @@ def pipeline(ctx, fresh=True):
     have = {json.dumps(v["ops"]) for v in sample}
     directed = [v for v in vecs if dup_lean_async(v) and json.dumps(v["ops"]) not in have]
     sample += directed[:40 if ctx.quick else 400]
+    # legacy chains: version-1 claims A1 <- A2, then a version-2 claim that takes A2 as ingredient (through an archive round trip
+    # and / or through a Reader): the manifests reachable only over legacy ingredient assertions must be carried along
+    def chain3(v):
+        ops = v["ops"]
+        return len(ops) == 3 and all(o["op"] == "S" for o in ops) and ops[0]["ings"] in ([], [0]) and ops[1]["ings"] == [1] and 2 in ops[2]["ings"]
+    legacy = []
+    for v in vecs:
+        if chain3(v):
+            for via in (None, "reader"):
+                ops = [dict(o) for o in v["ops"]]
+                ops[0]["cv"] = 1; ops[1]["cv"] = 1; ops[2]["cv"] = 2
+                if via:
+                    ops[2]["via"] = via
+                legacy.append(dict(v, ops=ops))
+    ctx.rng.shuffle(legacy)
+    sample += legacy[:24 if ctx.quick else 240]
     # longer histories and longer archive chains from simulation (thorough)
     if not ctx.quick:
         try:
@@ -148,6 +164,9 @@ def pipeline(ctx, fresh=True):
             stage = err.split(":")[0]
             prop = "C22" if stage in ("to_archive", "with_archive") or (op.get("arch") and stage in ("sign", "resource")) else ("C39" if stage.startswith("ingredient") else ("C40" if op.get("fl") == "async" else "C38"))
             # a failure that the plain / sync twin does not have belongs to the archive / the async path
+            if stage == "sign" and "ingredient.manifest.missing" in err and prop != "C39":
+                # the signer's own validation found an ingredient manifest missing from the store it has just built
+                findings.append(("C39", "sign-refused:ingredient.manifest.missing", "history step %d (%s): the new store lacks a manifest of an ingredient's chain: %s" % (len(o["steps"]), json.dumps(op), err[:200]), dict(case0, step=bad)))
             findings.append((prop, "operation-failed:%s:%s" % (stage, re.sub(r"[^A-Za-z]+.*", "", err.split(":", 1)[1])[:40] if ":" in err else ""), "history step %d (%s) failed: %s" % (len(o["steps"]), json.dumps(op), err[:200]), dict(case0, step=bad)))
             continue
         for i, (d, p) in enumerate(zip(o["assets"], v["pred"])):
